@@ -260,10 +260,6 @@ func (p *Processor) ChargingDataUpdate(
 	// Online charging: Rate, Account, Reservation
 	responseBody, partialRecord := p.BuildConvergedChargingDataUpdateResopone(chargingData)
 
-	if len(ue.Records) > 1 {
-		cdr = ue.Records[len(ue.Records)-1]
-	}
-
 	cdrBytes, errCdrBer := asn.BerMarshalWithParams(&cdr, "explicit,choice")
 	if errCdrBer != nil {
 		logger.ChargingdataPostLog.Error(errCdrBer)
@@ -303,6 +299,8 @@ func (p *Processor) ChargingDataUpdate(
 		newRecord.ChargingFunctionRecord.ListOfMultipleUnitUsage = []cdrType.MultipleUnitUsage{}
 		cdr = newRecord
 		ue.Records = append(ue.Records, cdr)
+		// later updates and the release of this session continue in the new record
+		ue.Cdr[chargingSessionId] = cdr
 	}
 
 	err := p.UpdateCDR(cdr, chargingData)
